@@ -6,6 +6,8 @@ pub mod c05;
 pub mod c07;
 pub mod c08;
 pub mod c09;
+pub mod c10;
+pub mod c11;
 pub mod c13;
 pub mod c16;
 
@@ -25,6 +27,7 @@ pub fn cells_of(prop: &str, tier: Tier) -> Option<(Vec<CellPlan>, &'static str)>
         "C07" => (c07::cells(tier), c07::RULE),
         "C08" => (c08::cells(tier), c08::RULE),
         "C09" => (c09::cells(tier), c09::RULE),
+        "C11" => (c11::cells(tier), c11::RULE),
         "C13" => (c13::cells(tier), c13::RULE),
         "C16" => (c16::cells(tier), c16::RULE),
         _ => return None,
